@@ -234,6 +234,9 @@ def generate(streams: Streams, tier: str, index: int) -> dict:
             "invalid": None}
     if rng.random() < 0.06:
         case["invalid"] = rng.choice(["modes_1d", "dim_mismatch"])
+    # the stored frames are also analysed offline with worker processes (simulated pool)
+    case["offline"] = {"workers": rng.choice([1, 2, 2, 3, 4, "auto"]), "auto_workers": rng.randint(1, 16),
+                       "choices": [rng.randrange(8) for _ in range(4)]}
     return case
 
 
@@ -503,6 +506,18 @@ def execute(case: dict) -> Outcome:
         st = MemoryStorage.from_fields([float(i) for i in range(len(fields))], [f for _, f in fields])
         ok, _ = guard("from_storage", lambda: droplets.EmulsionTimeCourse.from_storage(
             st, progress=False, threshold=tk["threshold"]))
+        off = case.get("offline")
+        if off:
+            from simkit import simexec
+
+            with simexec.PoolScript(auto_workers=off["auto_workers"], choices=off["choices"], counters=cnt):
+                guard("from_storage", lambda: droplets.EmulsionTimeCourse.from_storage(
+                    st, progress=False, num_processes=off["workers"], threshold=tk["threshold"]),
+                    {"workers": str(off["workers"])})
+                guard("tracks_from_storage", lambda: droplets.DropletTrackList.from_storage(
+                    st, method=tr["method"], progress=False, num_processes=off["workers"]),
+                    {"workers": str(off["workers"])})
+            cells.append(("offline", fam, dim, str(off["workers"]), min(len(fields), 3)))
         # ---- stage 5: file round trip on the simulated disk
         with simfs.SimFS(counters=cnt) as fs:
             path = f"{simfs.ROOT}/c09.h5"
